@@ -161,7 +161,7 @@ class Orig:
             self.msg = e.msg
         self._ref = None
         self._ref_problem = None
-        self.ort_ran = 0   # valuations ORT executed (whether or not the reference evaluator agreed)
+        self.ort_ran = 0   # valuations BOTH runtimes executed (whether or not their results agreed): "the model executes"
 
     def _run_ref(self, feeds):
         """Reference evaluator created once per model (many bindings are run per model in C09)."""
@@ -189,11 +189,11 @@ class Orig:
             o = self.sess.run(feeds)
         except runeq.RunError:
             return None, "ort-run"
-        self.ort_ran += 1
         try:
             r = self._run_ref(feeds)
         except runeq.RunError as e:
             return None, "ref-" + e.kind
+        self.ort_ran += 1
         d = runeq.compare(o, r, loose=10.0)
         if d:
             return None, "disagree"
@@ -285,6 +285,9 @@ def compare_interface(orig, opt):
                     problems.append(f"{what}-dim: {x[0]} {dx} -> {dy}")
                 elif isinstance(p, int):
                     problems.append(f"{what}-dim-lost: {x[0]} {dx} -> {dy}")
+                elif isinstance(q, int) and what == "input":
+                    # a symbolic / unknown input dim turned static: the result accepts fewer inputs
+                    problems.append(f"{what}-dim-narrowed: {x[0]} {dx} -> {dy}")
                 else:
                     notes.append(f"{what}-shape-refined: {x[0]} {dx} -> {dy}")
                 break
@@ -461,8 +464,8 @@ def evaluate(built, item, binds=(None,), n_val=mz.N_VALUATIONS, api=None, opts=N
         # the model does not execute: neither property concludes anything
         rec["skip"] = "no-admitted-run:" + ",".join(sorted(reasons))
         return rec
-    # ---- C04: validity + interface (needs a checker-valid model that executes; agreement of the two runtimes is
-    # only needed for the semantic parts below) ---------------------------------------------------------------
+    # ---- C04: validity + interface (needs a checker-valid model that both runtimes execute; agreement of their
+    # results is only needed for the semantic parts below) ------------------------------------------------------
     vp = validity_problems(opt)
     if vp:
         base = set(_classify_validity(p) for p in validity_problems(model))
